@@ -29,8 +29,8 @@ RULE = ("per timer kind (Timer, MonoTimer retro False/True, StoreTimer on Stampe
         "exactly L operations (L=4 quick, 5 thorough) over a 13-operation alphabet plus Hypothesis histories of <= 40 "
         "operations (clock forward/standstill/backward/absolute, reads, restart, repeat, extend) on an exact dyadic "
         "time grid; after every operation the return value / exception and .start/.stop/.duration are compared with "
-        "the model; non-trivial = the clock moved backwards at least once after the timer was created, or repeat() "
-        "was called on an expired timer; distinct = distinct (kind, initial clock, duration, operation list)")
+        "the model; non-trivial = at least one timer operation runs after the clock moved backwards, or repeat() "
+        "is called on an expired timer; distinct = distinct (kind, initial clock, duration, operation list)")
 ASSUMPTIONS = [
     "the clock is what the timer reads: ioflo.aid.timing.time.time() for Timer/MonoTimer (a fake object is installed "
     "for the duration of a case), store.stamp for StoreTimer (never None)",
@@ -137,6 +137,7 @@ class Model(object):
 class Feats(object):
     def __init__(self):
         self.back = False
+        self.back_observed = False
         self.pending_back_mutation = False
         self.repeat_expired = False
         self.retro_error = False
@@ -238,6 +239,8 @@ def _drive(case, kind, real, m, fake, store, feats, M):
             _set_clock(kind, fake, store, m, new, "adv" if name == "adv" else "set")
             continue
         pending_back = m.mono and m.now < m.latest
+        if feats.back:
+            feats.back_observed = True      # a timer operation runs after the clock has gone backwards
         calls = []
         if name == "read":
             which = op[1]
@@ -342,10 +345,10 @@ def case_strategy(kind):
 def outcome(case):
     fails, feats = run_case(case)
     kind = case["kind"]
-    nt = feats.back or feats.repeat_expired
+    nt = feats.back_observed or feats.repeat_expired
     n = len(case["ops"])
     cls = [kind, "%s/len%s" % (kind, "<=8" if n <= 8 else "<=40")]
-    for flag, label in ((feats.back, "backward-jump"), (feats.repeat_expired, "repeat-after-expiry"),
+    for flag, label in ((feats.back_observed, "operation-after-backward-jump"), (feats.repeat_expired, "repeat-after-expiry"),
                         (feats.retro_error, "TimerRetroError-expected"), (feats.standstill, "standstill"),
                         (feats.pending_back_mutation, "repeat/extend-with-unobserved-back-jump")):
         if flag:
